@@ -6,7 +6,7 @@ from __future__ import annotations
 
 import ast
 
-from ..astutil import AnalysisError, call_attr, dotted, kw, src
+from ..astutil import AnalysisError, call_attr, dotted, iter_calls, kw, src
 from ..model import ClassInfo
 from ..props.common import IT_ENGINE, IT_ROWS, SQL_ENGINE, Ctx
 
@@ -440,3 +440,110 @@ def r_no_swallowed_exceptions(ctx: Ctx, rule: str) -> None:
                 run.fail(rule, f"{mod.rel}:suppress:{bad}", f"`{src(node)[:60]}` silences exceptions inside the package", file=mod.path, line=node.lineno, func="<suppress>")
     if bad == 0:
         run.ok(rule, "package:no-swallowing-handler", {"handlers_seen": n})
+
+
+def r_init_order(ctx: Ctx, rule: str) -> None:
+    """Positional construction is part of the public surface of the value classes (the docs list fields in order)."""
+    import json
+    import os
+
+    run, m = ctx.run, ctx.m
+    run.rule(
+        rule,
+        "the positional parameter order of every generated dataclass __init__ keeps the verified order as a prefix "
+        "(fields and InitVars; new parameters only at the end): a caller passing arguments by position binds each value "
+        "to the parameter it always bound to",
+        expected_min=25,
+    )
+    path = os.path.join(os.path.dirname(os.path.dirname(os.path.abspath(__file__))), "baseline_functions.json")
+    with open(path, encoding="utf-8") as f:
+        base = json.load(f).get("init_order")
+    if not base:
+        raise AnalysisError("baseline_functions.json has no init_order table (regenerate with tools/gen_baseline.py)")
+    by_key = {c.key: c for c in m.all_classes()}
+    for key, order in sorted(base.items()):
+        if key.startswith("tests.py"):
+            continue
+        c = by_key.get(key)
+        if c is None or not c.is_dataclass or "__init__" in c.methods:
+            continue  # renamed / hand-written constructor: not this rule's business
+        cur = m.init_order(c)
+        inst = f"{c.name}:init-order"
+        if cur[: len(order)] == order:
+            run.ok(rule, inst)
+        else:
+            moved = next((b for a, b in zip(cur + [None] * len(order), order) if a != b), order[-1] if order else "?")
+            run.fail(
+                rule,
+                inst,
+                f"{c.name}(...) takes its positional arguments as {cur}; the verified order is {order}: a caller passing `{moved}` by position now binds another parameter",
+                file=c.module.path,
+                line=c.node.lineno,
+                func=c.name,
+            )
+
+
+_TAG_SET_ATTRS = ("columns", "columns_required", "min_columns", "max_columns", "common_columns", "columns_available", "unique_key")
+
+
+def r_no_tag_ordering(ctx: Ctx, rule: str) -> None:
+    """ColumnTag is a protocol with equality and hash only; ordering tags raises TypeError for the caller's tag type."""
+    run, m = ctx.run, ctx.m
+    run.rule(
+        rule,
+        "column tags are never ordered directly: every sorted()/min()/max()/list.sort() over a collection of tags gives a "
+        "key= (or orders str(tag)/tag.qualified_name): the ColumnTag protocol promises ==, hash and qualified_name, not <, so a "
+        "bare ordering raises TypeError - inside an error path it replaces the documented exception",
+        expected_min=2,
+    )
+
+    def tagset(e: ast.AST, env: dict[str, ast.expr], depth: int = 0) -> bool:
+        if depth > 4:
+            return False
+        if isinstance(e, ast.Name):
+            b = env.get(e.id)
+            return b is not None and tagset(b, env, depth + 1)
+        if isinstance(e, ast.Attribute):
+            return e.attr in _TAG_SET_ATTRS
+        if isinstance(e, ast.BinOp):
+            return tagset(e.left, env, depth + 1) or tagset(e.right, env, depth + 1)
+        if isinstance(e, ast.Call):
+            if isinstance(e.func, ast.Name) and e.func.id in ("set", "frozenset", "list", "tuple") and e.args:
+                return tagset(e.args[0], env, depth + 1)
+            if isinstance(e.func, ast.Attribute) and e.func.attr in ("union", "intersection", "difference", "symmetric_difference", "keys", "copy"):
+                return tagset(e.func.value, env, depth + 1)
+            return False
+        if isinstance(e, (ast.GeneratorExp, ast.ListComp, ast.SetComp)):
+            g = e.generators[0]
+            return isinstance(e.elt, ast.Name) and isinstance(g.target, ast.Name) and e.elt.id == g.target.id and tagset(g.iter, env, depth + 1)
+        if isinstance(e, (ast.Set, ast.List, ast.Tuple)):
+            return False
+        return False
+
+    n = 0
+    for f in m.all_functions():
+        if f.module.rel.startswith("tests"):
+            continue
+        env: dict[str, ast.expr] = {}
+        for s in ast.walk(f.node):
+            if isinstance(s, ast.Assign) and len(s.targets) == 1 and isinstance(s.targets[0], ast.Name):
+                env[s.targets[0].id] = s.value
+            elif isinstance(s, ast.AnnAssign) and isinstance(s.target, ast.Name) and s.value is not None:
+                env[s.target.id] = s.value
+        for c in iter_calls(f.node):
+            name = c.func.id if isinstance(c.func, ast.Name) else None
+            arg = None
+            if name in ("sorted", "min", "max") and len(c.args) == 1:
+                arg = c.args[0]
+            elif isinstance(c.func, ast.Attribute) and c.func.attr == "sort" and not c.args:
+                arg = c.func.value
+            if arg is None:
+                continue
+            n += 1
+            inst = f"{f.module.rel}:{f.qualname}:{name or 'sort'}@{src(arg)[:30]}"
+            if kw(c, "key") is not None or not tagset(arg, env):
+                run.ok(rule, inst)
+            else:
+                run.fail(rule, inst, f"`{src(c)[:70]}` orders column tags themselves: tags only promise equality and hashing, so this raises TypeError for the caller's tag class (here instead of the result or the documented error)", fi=f, node=c)
+    if n == 0:
+        raise AnalysisError("no ordering call left in the package (the positive example of this rule is gone)")
